@@ -249,7 +249,12 @@ pub fn generate(g: &mut Gen, thorough: bool) {
         }
     }
     // the grid operators with every kind of grid list: present, missing, optional, null, none at all
-    for opname in ["gridshift", "deformation dt=1", "deformation raw t_epoch=2000", "deflection"] {
+    for opname in [
+        "gridshift", "deformation dt=1", "deformation raw t_epoch=2000", "deflection",
+        // every further parameter of their gamuts, at extreme values
+        "gridshift padding=-5", "gridshift padding=1e300", "deformation dt=1 padding=-5", "deformation dt=1 padding=-1e300", "deformation dt=1 padding=1e300", "deformation dt=-1e300 padding=0",
+        "deformation t_epoch=1e300", "deformation dt=0 raw", "deflection padding=-5", "deflection ellps=unitsphere", "gridshift ellps=6378137,0",
+    ] {
         for grids in [
             "@missing.gsb", "@missing.gsb,@null", "@null", "@null,test.datum", "missing.gsb", "@missing.datum,@alsomissing.geoid", "test.datum", "test.geoid", "test.deformation",
             "@nosuch.datum,test.datum", "test.datum,@null", "5458.gsb", "5458_with_subgrid.gsb,@null", "test.geoid,@null", "test.deformation,@null", "test.datum,test.geoid", "test.deformation,test.datum", "", ",", "@", "@@null",
